@@ -753,6 +753,41 @@ def gen_fanin(rng, **_):
     return sc
 
 
+def gen_cleanup(rng, **_):
+    """a handler that overruns its event's timeout and whose cleanup code (run while the cancellation is delivered) reports the
+    abort with an event of its own - dispatched, and mostly awaited, from inside the `finally`; other handlers of the event and
+    later events are queued behind it. There is exactly one timeout in the scenario (a second cancellation arriving inside the
+    cleanup's await is outside the modelled envelope)"""
+    n = rng.choice([1, 1, 2])
+    sc = {'buses': [{'parallel': False, 'maxh': 50, 'wal': False} for _ in range(n)],
+          'types': {t: {'timeout': 'none'} for t in 'ABCD'}, 'handlers': [], 'tasks': []}
+    sc['types']['A']['timeout'] = rng.choice([9 / 128, 33 / 128])
+    slow = {'bus': 0, 'key': 'A', 'kind': 'async', 'prog': [['sleep', 3 / 4]],
+            'cleanup_event': [rng.randrange(n), 'D', rng.random() < 0.8]}
+    if rng.random() < 0.4:
+        slow['prog'].insert(0, ['dispatch', rng.randrange(n), 'C', 0])
+    if rng.random() < 0.3:
+        slow['cleanup'] = 1 / 64
+    hs = [slow]
+    for _ in range(rng.randint(0, 2)):
+        hs.append({'bus': 0, 'key': rng.choice(['A', '*']), 'kind': rng.choice(['async', 'sync']), 'prog': []})
+    if rng.random() < 0.3:
+        rng.shuffle(hs)
+    sc['handlers'] += hs
+    for t in 'CD':
+        if rng.random() < 0.7:
+            sc['handlers'].append({'bus': rng.randrange(n), 'key': t, 'kind': 'async', 'prog': [['sleep', rng.choice([0, 1 / 64])]]})
+    main = [['dispatch', 0, 'A', 0]]
+    if rng.random() < 0.6:
+        main.append(['dispatch', 0, rng.choice('BC'), 1])
+    main.append(['await', 0])
+    for b in range(n):
+        if rng.random() < 0.5:
+            main.append(['waitidle', b])
+    sc['tasks'].append(main)
+    return sc
+
+
 def gen_idle(rng, **_):
     """wait_until_idle() racing a sequential producer (`await bus.dispatch(...)` in a loop) at every phase offset,
     counted in zero-sleeps, plus external bursts: the re-check loop of wait_until_idle is exercised"""
